@@ -178,6 +178,7 @@ def body(ctx, case):
     res = ctx.must("process_lines_raises", run, eng, imgs, mode)
     ts, ls, cs = res
     n = len(imgs)
+    snap = [None if l is None else dense_of(l).copy() for l in ls]     # for the end of the body: later calls must not alter them
     ctx.check(len(ts) == n and len(ls) == n and len(cs) == n, "result_count", desc)
     ctx.event("mode:" + mode)
     ctx.event("blur:%d" % blur)
@@ -283,6 +284,12 @@ def body(ctx, case):
                       and np.array_equal(window_rows(line.logits, line.logit_coords, mode), window_rows(ls[j], cs[j], mode)),
                       "page_ocr_result_on_wrong_line",
                       lambda: "line %s got %r expected %r; " % (line.id, line.transcription, ts[j]) + desc())
+    # the logits handed back by the first call are still what they were after all the later calls of the same engine
+    for j in range(min(n, len(ls))):
+        if snap[j] is not None and ls[j] is not None:
+            now = dense_of(ls[j])
+            ctx.check(now.shape == snap[j].shape and np.array_equal(now, snap[j]), "logits_of_an_earlier_call_changed_by_later_calls",
+                      lambda: "line %d; " % j + desc())
     widths = [im.shape[1] for im in imgs]
     if n >= 3 and len(set(widths)) >= 2 and len(set(ts)) >= 2 and n_batches(widths, limit) >= 2:
         ctx.nontrivial(repr(case))
